@@ -171,6 +171,77 @@ var c13Muts = []c13Mut{
 		}
 		return "nope"
 	}},
+	{"R2-undefined-directive-elsewhere", func(r *Rng, s *sSet) string {
+		// every other place a directive can be used, on members whose type is already resolved when the document
+		// is scanned (built-in scalars) as well as on members typed by the document's own definitions
+		use := sDirUse{name: "nope"}
+		switch r.Intn(6) {
+		case 0:
+			d := s.pick(r, "input")
+			if d == nil || len(d.inFields) == 0 {
+				return ""
+			}
+			if r.Bool() {
+				d.inFields = append(d.inFields, &sArg{name: "plain", t: wrapRandom(r, named(Pick(r, []string{"Int", "String", "Boolean", "ID", "Float"}))), dirs: []sDirUse{use}})
+			} else {
+				f := Pick(r, d.inFields)
+				f.dirs = append(f.dirs, use)
+			}
+		case 1:
+			d := s.pick(r, "object")
+			f := Pick(r, d.fields)
+			f.args = append(f.args, &sArg{name: "plainArg", t: wrapRandom(r, named(Pick(r, []string{"Int", "String", "Boolean"}))), dirs: []sDirUse{use}})
+		case 2:
+			d := s.pick(r, "enum")
+			if r.Bool() {
+				d.dirs = append(d.dirs, use)
+			} else {
+				v := Pick(r, d.values)
+				v.dirs = append(v.dirs, use)
+			}
+		case 3:
+			d := s.pick(r, "input")
+			if d == nil {
+				return ""
+			}
+			d.dirs = append(d.dirs, use)
+		case 4:
+			d := s.pick(r, "interface")
+			if d == nil {
+				return ""
+			}
+			if r.Bool() {
+				d.dirs = append(d.dirs, use)
+			} else {
+				f := Pick(r, d.fields)
+				f.dirs = append(f.dirs, use)
+			}
+		default:
+			d := s.pick(r, "union")
+			if d == nil {
+				return ""
+			}
+			d.dirs = append(d.dirs, use)
+		}
+		return "nope"
+	}},
+	{"R6-argument-type-changed", func(r *Rng, s *sSet) string {
+		// the implementing field keeps the interface field's argument but changes its type at some wrapper level
+		pairs := [][2]*gTRef{
+			{named("Int"), nonNull(named("Int"))},
+			{listOf(named("Int")), nonNull(listOf(named("Int")))},
+			{listOf(named("Int")), listOf(nonNull(named("Int")))},
+			{listOf(listOf(named("Int"))), listOf(listOf(nonNull(named("Int"))))},
+			{nonNull(named("Int")), named("Int")},
+			{named("Int"), named("String")},
+			{listOf(named("Int")), named("Int")},
+		}
+		p := Pick(r, pairs)
+		s.defs = append(s.defs,
+			&sDef{kind: "interface", name: "ArgI", fields: []*sField{{name: "fa", t: named("Int"), args: []*sArg{{name: "same", t: named("String")}, {name: "xarg", t: p[0]}}}}},
+			&sDef{kind: "object", name: "ArgO", ifaces: []string{"ArgI"}, fields: []*sField{{name: "fa", t: named("Int"), args: []*sArg{{name: "same", t: named("String")}, {name: "xarg", t: p[1]}}}}})
+		return "xarg"
+	}},
 	{"R3-duplicate-type", func(r *Rng, s *sSet) string {
 		d := s.pick(r, "enum")
 		s.defs = append(s.defs, &sDef{kind: "object", name: d.name, fields: []*sField{{name: "a", t: named("Int")}}})
